@@ -78,6 +78,7 @@ impl EngineModel {
     /// ASSUMED CONTRACT for the two rank ranges ZPOPMIN / ZPOPMAX ask for: (0, 0) = the least member, (-1, -1) = the greatest
     #[verifier::external_body]
     pub fn zrange(&mut self, db: usize, key: &[u8], start: isize, stop: isize, rev: bool) -> (r: Result<Vec<(Vec<u8>, f64)>>)
+        requires model_domain(!rev && ((start == 0 && stop == 0) || (start == -1 && stop == -1))),
         ensures final(self).ds@ == old(self).ds@, final(self).ttl@ == old(self).ttl@, final(self).z@ == old(self).z@,
             other_type(old(self).ds@, db as int, key@) ==> r is Err,
             !other_type(old(self).ds@, db as int, key@) ==> r is Ok,
@@ -88,6 +89,8 @@ impl EngineModel {
             }),
     { unimplemented!() }
 }
+/// marks a precondition that delimits what an assumed model contract describes (a call outside it makes the unit UNDECIDED)
+pub open spec fn model_domain(b: bool) -> bool { b }
 /// `v.into_iter().next()` (RXPR site): the first element, if any
 #[verifier::external_body]
 pub fn verif_first(v: Vec<(Vec<u8>, f64)>) -> (r: Option<(Vec<u8>, f64)>)
@@ -304,7 +307,7 @@ impl Server {
 //@@   rewrite R3
 //@@   params drop "&self" add "&mut self"
 //@@   rewrite RCALL parse "String::from_utf8_lossy(bytes)" verif_cow_parse
-//@@   rewrite RXPR "members.into_iter().next()" "verif_first(members)"
+//@@   rewrite? RXPR "members.into_iter().next()" "verif_first(members)"
 //@@   rewrite RXPR "score.to_string()" "score"
 //@@   rewrite RT "RespFrame::from_string(" "verif_score_frame("
 //@@   rewrite RFOR 0 it
@@ -369,7 +372,7 @@ impl Server {
 //@@   rewrite R3
 //@@   params drop "&self" add "&mut self"
 //@@   rewrite RCALL parse "String::from_utf8_lossy(bytes)" verif_cow_parse
-//@@   rewrite RXPR "members.into_iter().next()" "verif_first(members)"
+//@@   rewrite? RXPR "members.into_iter().next()" "verif_first(members)"
 //@@   rewrite RXPR "score.to_string()" "score"
 //@@   rewrite RT "RespFrame::from_string(" "verif_score_frame("
 //@@   rewrite RFOR 0 it
